@@ -846,7 +846,7 @@ fn run_one(g: &Groups, group: &str, i: usize, l: &mut Local) {
 pub fn run(rep: &Report) {
     rep.set_rule("cases = inputs to the public entry points enumerated completely per group: token-alphabet strings up to a length, JSON-form member assignments, every single-position type substitution in header/payload/disclosures of valid tokens (signed and unsigned), the C08 space of validly signed ill-formed structures, every selector JSON up to a node bound against full and partial SD-JWTs, issuer inputs (all small JSON values, alphabets, chains to depth 64, path catalogue), deepest inputs near the parser's recursion limit; oracle: catch_unwind returned, worker process alive, watchdog silent; non-trivial = case that reaches past the framing (signed structure, selector, issuer input, deep input); distinct by construction");
     rep.assume("non-termination is detected by a 120 s per-block watchdog, not proved absent");
-    rep.assume("each worker runs its cases on the process main thread (default 8 MB stack)");
+    rep.assume("each worker runs its cases on the process main thread (default 8 MB stack), except the deep inputs, each of which runs on its own thread with Rust's default 2 MiB stack");
     let n = std::thread::available_parallelism().map(|x| x.get()).unwrap_or(8);
     let deaths = worker::supervise(rep, &["C07".to_string(), rep.tier.clone()], n, Duration::from_secs(120));
     for d in deaths {
